@@ -10,7 +10,9 @@ from ..history import Run, draw_op, replay
 from ..oracle.schema import schema
 from ..run import hyp_search, mix
 
-RULE = ('(a) bounded-exhaustive: ALL histories of <=3 ops (quick; <=4 thorough for small alphabets) over add / '
+RULE = ('shared child objects: for every type and every child symbol, a checked child holding one child of its own is '
+        'also given to a second parent (or to the same one twice) and then removed / unset / replaced; '
+        '(a) bounded-exhaustive: ALL histories of <=3 ops (quick; <=4 thorough for small alphabets) over add / '
         'remove / dot-None / to_string on a deterministic symbol subset of every type; (b) Hypothesis-drawn adaptive '
         'histories (1-12 ops quick, 1-30 thorough) over the full op set (add, forward add, remove, replace same/other '
         'name, dot instance/value/None, non-child misuse, to_string with both intelligent_choice values), next symbol '
@@ -67,6 +69,11 @@ def in_order_add_only(run):
     return run.dfa is not None and run.dfa.is_prefix(tuple(op[1] for op in run.ops))
 
 
+# besides the default mix: checked children with content of their own, and child objects that are also given to a
+# second parent (nothing forbids it) before being removed / replaced here
+RANDOM_WEIGHTS = {'add_nested': 2, 'share_out': 1, 'add_again': 1}
+
+
 def check_after(run, r, acc=None):
     """judge one returned to_string"""
     if r is None or not r.ok:
@@ -74,6 +81,31 @@ def check_after(run, r, acc=None):
     bad = verify_output(run, r.value)
     if bad:
         return F(run, bad[0], bad[1])
+    if 'nested' in run.flags:
+        # checked children that hold children of their own (op add_nested): their part of the output is judged too
+        bad = _verify_objects(run.e, ET.fromstring(r.value))
+        if bad:
+            return F(run, bad[0], bad[1])
+    return None
+
+
+def _verify_objects(obj, node):
+    s = schema()
+    word = tuple(c.tag for c in node)
+    if getattr(obj, 'xsd_check', False) and node.tag in s.element_type:
+        t = s.element_type[node.tag]
+        if s.content_kind(t) == 'elements':
+            if not s.dfa(t).accepts(word):
+                return 'invalid-child-sequence', {'element': node.tag, 'word': list(word), 'nested': True}
+        elif word:
+            return 'children-on-childless-type', {'element': node.tag, 'word': list(word)}
+    r = call(obj.get_children, True)
+    kids = r.value if r.ok else []
+    if len(kids) == len(node) and all(k.name == n.tag for k, n in zip(kids, node)):
+        for k, n in zip(kids, node):
+            bad = _verify_objects(k, n)
+            if bad:
+                return bad
     return None
 
 
@@ -165,6 +197,17 @@ def enum_word_removals(tkey, max_len, cap):
                     yield adds + [['remove', i], ['remove', j]]
 
 
+def shared_child_histories(tkey):
+    """a checked child with content of its own that is ALSO given to a second parent (or to this one twice) and
+    then removed / unset / replaced here: for every symbol of the type"""
+    for a in schema().alphabet(tkey):
+        yield [['add_nested', a], ['share_out', 0], ['remove', 0]]
+        yield [['add_nested', a], ['share_out', 0], ['dot_none', a]]
+        yield [['add_nested', a], ['share_out', 0], ['replace', 0, a]]
+        yield [['add_nested', a], ['add_again', 0], ['remove', 0], ['remove', 0]]
+        yield [['add_nested', a], ['share_out', 0], ['to_string', 1], ['remove', 0]]
+
+
 def shards(ctx):
     te = gen.types_and_elements()
     jobs = [{'mode': 'exh', 'types': part} for part in gen.chunk(te, 16)]
@@ -192,7 +235,8 @@ def run_shard(ctx, shard, acc):
             if not ctx.quick and n <= 4:
                 depth = 4
             for ops in itertools.chain(enum_histories(t, depth, k),
-                                       enum_word_removals(t, 4, 150 if ctx.quick else 1500)):
+                                       enum_word_removals(t, 4, 150 if ctx.quick else 1500),
+                                       shared_child_histories(t)):
                 run, f = execute(els[0], ops, final=True)     # every history is followed by to_string(ic=0 and 1)
                 if run.e is None:
                     break
@@ -213,7 +257,7 @@ def run_shard(ctx, shard, acc):
             n = data.draw(st.integers(1, maxops))
             last_children = 0
             for _ in range(n):
-                op = draw_op(data, run)
+                op = draw_op(data, run, RANDOM_WEIGHTS)
                 r = run.apply(op)
                 if op[0] == 'to_string' and r is not None and r.ok:
                     last_children = max(last_children, len(run.model))
